@@ -30,4 +30,18 @@ theorem with_capacity_step (c : Nat) (s : St) :
   · rcases hw : heapWithCapacity s.rf s.hp c with ⟨o, hp'⟩
     cases o <;> rt_step [h, hw]
 
+/-- `from_static_str`: a short text is copied inline, a long one is borrowed (`(sid, len)`), one that does
+not fit below the tag byte is refused — what `Api.step (.fromStatic d sid)` does, for every text -/
+theorem from_static_str_step (t : SStr) (s : St) :
+    GenRepr.Repr.from_static_str t s =
+      if t.b.length ≤ MAX_INLINE then .next (.ok (.inl (inlNew t.b))) s
+      else if t.b.length > STATIC_MAX_LEN then .next .err s
+      else .next (.ok (.stat t.sid t.b.length)) s := by
+  unfold GenRepr.Repr.from_static_str
+  by_cases h : t.b.length ≤ MAX_INLINE
+  · rt_step [h]
+  · by_cases h2 : t.b.length > STATIC_MAX_LEN
+    · rt_step [h, h2]
+    · rt_step [h, h2]
+
 end LS.GenTie
